@@ -683,6 +683,40 @@ func (r *rwRT) coverShape(fn *ssa.Function, pos, kind string, in0 *astInput) {
 					}
 				}
 			}
+			// where the statement goes: the statement itself (or the if / switch / loop rebuilt from its parts) is
+			// pushed into the block that was handed in or into a block the combine decision / the recursion /
+			// the yield lowering handed back — never into one of the finished sub-blocks of its own bodies
+			// (it would be lost), and the block handed back to the list is not such a sub-block either
+			subBlocks := map[string]bool{} // blocks made for a nested body right here (not by the combine decision / the yield lowering)
+			for _, e := range o.St.Events {
+				if e.Kind == "call" && e.Fn != nil && inRw(e.Fn) && e.Fn.Name() == "mkBlock" && e.Ret != nil &&
+					!strings.Contains(e.Stack, "combineIfNecessary") && !strings.Contains(e.Stack, "rewriteYieldCall") && !strings.Contains(e.Stack, "rewriteBlockStmt") {
+					subBlocks[argLabel(e.Ret)] = true
+				}
+			}
+			isSubBlock := func(v AV) bool {
+				l := argLabel(v)
+				return strings.Contains(l, "rewriteBlockStmt") || subBlocks[l]
+			}
+			for _, e := range o.St.Events {
+				if e.Kind != "call" || e.Fn == nil || !inRw(e.Fn) || e.Fn.Name() != "push" || len(e.Args) != 3 {
+					continue
+				}
+				arg := unwrap(e.Args[1])
+				own := sameAV(arg, unwrap(in0.root))
+				if po := o.St.Obj(arg); po != nil && !own {
+					switch typeName(po.T) {
+					case "IfStmt", "SwitchStmt", "TypeSwitchStmt", "ForStmt":
+						own = true
+					}
+				}
+				if own && isSubBlock(e.Args[0]) {
+					lossBad = append(lossBad, fmt.Sprintf("the statement is pushed into %s, the finished block of one of its own bodies, instead of the output block: it never reaches the output: %s", argLabel(e.Args[0]), pathSummary(o)))
+				}
+			}
+			if len(o.Ret) == 1 && isSubBlock(o.Ret[0]) {
+				lossBad = append(lossBad, fmt.Sprintf("the block handed back to the statement list is %s, the finished block of a nested body, not the open output block: the statements that follow are written into a block nobody emits: %s", argLabel(o.Ret[0]), pathSummary(o)))
+			}
 			var twice []string
 			for l, n := range count {
 				if n > 1 {
